@@ -128,6 +128,9 @@ func fromV2(a types.AttributeValue) AV {
 	case *types.AttributeValueMemberBOOL:
 		return Bool(x.Value)
 	case *types.AttributeValueMemberNULL:
+		if !x.Value {
+			return AV{T: "NULL", Bool: true} // NULL:false - not a valid value; keeps it distinguishable
+		}
 		return Null()
 	case *types.AttributeValueMemberL:
 		l := make([]AV, len(x.Value))
@@ -369,6 +372,9 @@ func (d *V2) Exec(cmd *Cmd) (o Outcome) {
 		}
 		if cmd.Native == "debug" {
 			d.cl.ActivateDebug()
+		}
+		if cmd.Native == "metrics" {
+			v2.SetItemCollectionMetrics(d.cl, map[string][]types.ItemCollectionMetrics{})
 		}
 		if cmd.Native == "updater-panic" {
 			d.cl.GetNativeInterpreter().AddUpdater(cmd.T, UpdText(cmd), func(item, _ map[string]*mtypes.Item) {
